@@ -197,6 +197,13 @@ def _exec_cat(ctx, case):
     ca, cb = _cols(A), _cols(B)
     if (a + b) % 3 == 0:
         out = cat_tree(A, B, np.int64(a), np.int32(b), translate=tr)
+    elif (a + b) % 3 == 1 and not tr:
+        import warnings as _w
+
+        with _w.catch_warnings():
+            _w.simplefilter("ignore")
+            out = cat_tree(A, B, a, b, no_move=True)  # the older spelling of translate=False
+        ctx.count("cat_legacy_no_move")
     else:
         out = cat_tree(A, B, a, b, translate=tr)
     ctx.count("cat_checked")
